@@ -77,13 +77,34 @@ def init_groups():
     yield "examples mode", ["examples_mode"], [(x,) for x in EXAMPLES + [BOGUS]]
 
 
-def validation_prefix(f):
-    """Leading statements of the body that are bare calls (after the docstring)."""
+def _writes_state(ctx, st):
+    """Does the bare call `st` reach a function that assigns an attribute (self.x = ..., self.x += ...)?  Such a call is work,
+    not validation."""
+    cs = ctx.r.site_of.get(id(st.value))
+    if cs is None or not cs.targets:
+        return False
+    for q in ctx.r.reach_from([t.qual for t in cs.targets]):
+        g = ctx.p.funcs[q]
+        for n in walk_own(g.node):
+            if isinstance(n, (ast.Assign, ast.AugAssign)):
+                for t in (n.targets if isinstance(n, ast.Assign) else [n.target]):
+                    if isinstance(t, (ast.Attribute, ast.Subscript)) and not (isinstance(t, ast.Subscript) and isinstance(t.value, ast.Name)
+                                                                             and t.value.id in g.local_names):
+                        return True
+    return False
+
+
+def validation_prefix(f, ctx=None):
+    """Leading statements of the body that are bare calls (after the docstring) and, when the resolved program is given, write no
+    state: the first bare call that reaches an attribute assignment is where the work begins (a refactoring that turns the first
+    stage into one helper call must not turn that helper into a 'validation')."""
     out = []
     for st in f.node.body:
         if isinstance(st, ast.Expr) and isinstance(st.value, ast.Constant):
             continue
         if isinstance(st, ast.Expr) and isinstance(st.value, ast.Call):
+            if ctx is not None and _writes_state(ctx, st):
+                break
             out.append(st)
             continue
         break
@@ -123,7 +144,7 @@ def check(ctx, tier):
     ev = Evaluator(ctx)
     init, shex = p.func(INIT), p.func(SHEX)
     # ------------------------------------------------------------- D-a: __init__
-    pre = validation_prefix(init)
+    pre = validation_prefix(init, ctx)
     rows = 0
     for gname, gvars, gvals in init_groups():
         missing = [v for v in gvars if v not in init.params]
@@ -147,7 +168,7 @@ def check(ctx, tier):
             obs.append(Ob("D-a", "R-TABLE", key, init.loc(), ok,
                           "row %s -> %s" % (key.split("|")[-1], want if ok else "expected %s, code gives %s" % (want, outs))))
     # ----------------------------------------------------------- D-a: shex_graph
-    pre2 = validation_prefix(shex)
+    pre2 = validation_prefix(shex, ctx)
     thr = {"t<0": Sym("t<0", float, {0: "<", 1: "<"}), "t=0": 0, "0<t<1": Sym("0<t<1", float, {0: ">", 1: "<"}),
            "t=1": 1, "t>1": Sym("t>1", float, {0: ">", 1: ">"})}
     base = {"string_output": True, "output_file": None, "to_uml_path": None, "output_format": "ShEx",
@@ -193,12 +214,6 @@ def check(ctx, tier):
                     cls = ast.unparse(n.exc.func) if isinstance(n.exc, ast.Call) else ast.unparse(n.exc) if n.exc else "?"
                     obs.append(Ob("D-b", "R-RAISE", "R-RAISE|validation-raises|%s|%s" % (g.short, cls), g.loc(n),
                                   cls == "ValueError", "validation function %s raises %s" % (g.short, cls)))
-                if isinstance(n, (ast.Assign, ast.AugAssign)):
-                    tg = n.targets if isinstance(n, ast.Assign) else [n.target]
-                    for t in tg:
-                        if isinstance(t, ast.Attribute):
-                            obs.append(Ob("D-b", "R-ORDER", "R-ORDER|validation-writes-state|%s|%s" % (g.short, g.key(t)),
-                                          g.loc(n), False, "validation function %s writes state %s" % (g.short, g.key(t))))
         # a validation function called again later (after state was written) would be a deferred check
         vnames = {norm(st.value.func) for st in prefix}
         for st in rest:
